@@ -1,0 +1,23 @@
+//go:build verif
+
+// Contracts of package nut20 for the govc verifier (/verif). Comment-only file,
+// compiled only with the build tag `verif`.
+package nut20
+
+// NUT-20: the signed message is the quote id followed by the B_ of EVERY
+// output, in request order; the Schnorr signature is over its SHA-256.
+// cat.bm.B_(q, a, n) = q ++ a[0].B_ ++ ... ++ a[n-1].B_ (spec prelude).
+
+//@ func VerifyMintQuoteSignature
+//@   tags C03
+//@   safety C06 C03
+//@   loop range(blindedMessages) invariant 0 <= i && i <= len(blindedMessages) && msg == cat.bm.B_(quoteId, seq(blindedMessages), i)
+//@   ensures @message [C03] result == sig.ok(*signature, sha256(bytesOf(cat.bm.B_(quoteId, seq(blindedMessages), len(blindedMessages)))), pk.pt(*publicKey))
+
+//@ func SignMintQuote
+//@   tags C03
+//@   safety C06 C03
+//@   loop range(blindedMessages) invariant 0 <= i && i <= len(blindedMessages) && msg == cat.bm.B_(quoteId, seq(blindedMessages), i)
+//@   calls schnorr.Sign asserts @message [C03] bytes(hash) == sha256(bytesOf(cat.bm.B_(quoteId, seq(blindedMessages), len(blindedMessages)))) && privKey == privateKey
+//@   ensures @accepted [C03] err == nil ==> r0 != nil && sig.ok(*r0, sha256(bytesOf(cat.bm.B_(quoteId, seq(blindedMessages), len(blindedMessages)))), smul(sc.of(privateKey.Key), pt.G))
+//@   ensures @errnil [C03] err != nil ==> r0 == nil
